@@ -161,6 +161,99 @@ Proof.
     eexists. split; [reflexivity|]. unfold cbs_of_trace. cbn [flat_map app]. rewrite <- app_assoc. reflexivity.
 Qed.
 
+(* which callbacks a trace can name *)
+Lemma cbs_of_trace_names tbl : forall tr n id,
+  In (n, id) (cbs_of_trace tbl tr) ->
+  exists k sc, In (Ev id k sc false) tr /\ In n (callbacks_of tbl k).
+Proof.
+  induction tr as [|e tr IH]; intros n id H; [contradiction|].
+  unfold cbs_of_trace in H. cbn [flat_map] in H. apply in_app_or in H. destruct H as [H|H].
+  - destruct e as [id' k sc [|]]; [contradiction|].
+    apply in_map_iff in H. destruct H as (nm & E & Hin). inversion E; subst.
+    exists k, sc. split; [now left|exact Hin].
+  - destruct (IH n id H) as (k & sc & H1 & H2). exists k, sc. split; [now right|exact H2].
+Qed.
+
+Lemma scale_trace_kinds rdm sc l id k sc' r :
+  In (Ev id k sc' r) (scale_trace rdm sc l) -> exists s, In s l /\ s_kind s = Some k.
+Proof.
+  unfold scale_trace. intros H. apply in_flat_map in H. destruct H as (s & Hs & He).
+  exists s. split; [exact Hs|]. unfold step_evs in He. destruct (s_kind s) as [k'|]; [|contradiction].
+  unfold evs in He. destruct He as [He|He]; [inversion He; reflexivity|].
+  destruct rdm; [|contradiction]. destruct He as [He|[]]. inversion He; reflexivity.
+Qed.
+
+(* a single-scale run never names the multiscale kind *)
+Lemma single_scale_no_msc p rdm id sc r :
+  ~ In (Ev id Msc sc r) (expected_trace p 1 rdm).
+Proof.
+  unfold expected_trace. cbn [Nat.sub coarse_traces app]. intros H.
+  apply scale_trace_kinds in H. destruct H as (s & Hs & Hk).
+  apply filter_In in Hs. destruct Hs as [_ Hf]. unfold is_kind in Hf. rewrite Hk in Hf. discriminate.
+Qed.
+
+Lemma map_pair_combine (l : list string) (id : Z) :
+  map (fun nm => (nm, id)) l = combine l (repeat id (List.length l)).
+Proof. induction l; cbn; [reflexivity|]. now rewrite IHl. Qed.
+
+(* boolean obligation on the trigger table: the callbacks of `matching_cost` are the first
+   callbacks, every named callback has an entry, only `multiscale` names the multiscale ones *)
+Definition table_ok (tbl : list (string * list string)) (cbs : list cbinfo) (first msc : list string) : bool :=
+  (if list_eq_dec string_dec (callbacks_of tbl MC) first then true else false) &&
+  forallb (fun k => forallb (fun nm => match find_cb nm cbs with Some _ => true | None => false end)
+                            (callbacks_of tbl k)) all_kinds &&
+  forallb (fun k => kind_eqb k Msc || forallb (fun nm => negb (mem_s nm msc)) (callbacks_of tbl k)) all_kinds.
+
+Lemma all_kinds_complete k : In k all_kinds.
+Proof. destruct k; cbn; tauto. Qed.
+
+Section RunData.
+  Variable value : Type.
+  Variable sem : string -> Z -> store value -> store value.
+  Variable prep_sem : store value -> store value.
+  Variable tbl : list (string * list string).
+  Variables (prep : cbinfo) (cbs : list cbinfo) (first msc : list string).
+
+  (* the attribute store after pandora.run: run_prepare, then the callbacks of the trace *)
+  Definition run_data (p : list step) (n : nat) (rdm : bool) (s : store value) : store value :=
+    exec value sem (cbs_of_trace tbl (expected_trace p n rdm)) (prep_sem s).
+
+  Theorem run_data_history_free (p : list step) (d : state) (n : nat) (rdm : bool) :
+    table_ok tbl cbs first msc = true ->
+    covered prep cbs first (if (1 <? n)%nat then [] else msc) = true ->
+    respects value prep prep_sem ->
+    (forall c id, In c cbs -> respects value c (sem (cb_name c) id)) ->
+    path_ok Begin p = Some d -> p <> [] -> (n >= 1)%nat ->
+    forall s1 s2, agree value persist s1 s2 ->
+      agree value products (run_data p n rdm s1) (run_data p n rdm s2).
+  Proof.
+    intros Htbl Hcov Hprep Hsem Hp Hne Hn s1 s2 Hag.
+    unfold table_ok in Htbl. apply andb_true_iff in Htbl. destruct Htbl as [Htbl Hmsc].
+    apply andb_true_iff in Htbl. destruct Htbl as [Hfirst Hall].
+    destruct (list_eq_dec string_dec (callbacks_of tbl MC) first) as [Ef|]; [|discriminate].
+    destruct (trace_starts_with_mc tbl p d n rdm Hp Hne Hn) as (s & rest & Hs & Etr).
+    unfold run_data. rewrite Etr, Ef, map_pair_combine.
+    apply (run_products_history_free value sem cbs Hsem prep first _ prep_sem Hcov Hprep).
+    - now rewrite repeat_length.
+    - intros nm id Hin.
+      assert (Hin' : In (nm, id) (cbs_of_trace tbl (expected_trace p n rdm))).
+      { rewrite Etr. apply in_or_app. now right. }
+      destruct (cbs_of_trace_names tbl _ _ _ Hin') as (k & sc & Hev & Hnm). split.
+      + rewrite forallb_forall in Hall. specialize (Hall k (all_kinds_complete k)).
+        rewrite forallb_forall in Hall. specialize (Hall nm Hnm).
+        destruct (find_cb nm cbs) as [c|] eqn:Ec; [|discriminate].
+        destruct (find_cb_name _ _ _ Ec) as [E1 E2]. exists c. auto.
+      + destruct (Nat.ltb_spec 1 n) as [Hgt|Hle]; [intros []|].
+        assert (n = 1)%nat by lia. subst n.
+        rewrite forallb_forall in Hmsc. specialize (Hmsc k (all_kinds_complete k)).
+        apply orb_true_iff in Hmsc. destruct Hmsc as [Hk|Hk].
+        * destruct k; try discriminate. exfalso. eapply single_scale_no_msc. exact Hev.
+        * rewrite forallb_forall in Hk. specialize (Hk nm Hnm). intros Hc.
+          apply mem_s_In in Hc. rewrite Hc in Hk. discriminate.
+    - exact Hag.
+  Qed.
+End RunData.
+
 (* ---------------------------------------------------------------- (3) histories on one machine *)
 Section Hist.
   Variable check_tbl run_tbl : list transition.
